@@ -483,3 +483,153 @@ def fold_database(ck: Checker, R: str):
              'the answer computes exactly the requested table on every output in order (through negation, reordering, duplicates), None exactly when the normal form is not stored; unnormalised circuits are refused',
              '; '.join(probs[:2]), construct='CircuitsDatabase add / lookup over all two-input tables')
     ck.assume('the database is folded in memory over two-input tables; the shipped database files (2 x 349,724 entries) are data and are not analysed')
+
+
+from .interp import Host as _Host
+
+
+class _MemFile(_Host):
+    def __init__(self, fs, path, mode):
+        import io
+        self.fs, self.path, self.mode = fs, path, mode
+        self.buf = io.StringIO(fs.get(path, '') if 'r' in mode else '')
+
+    def __enter__(self):
+        return self
+
+    def __exit__(self, *a):
+        self.close()
+        return False
+
+    def close(self):
+        if 'w' in self.mode or 'a' in self.mode:
+            self.fs[self.path] = self.buf.getvalue()
+
+    def write(self, t):
+        return self.buf.write(t)
+
+    def writelines(self, lines):
+        for l in lines:
+            self.buf.write(l)
+
+    def read(self, *a):
+        return self.buf.read(*a)
+
+    def readlines(self):
+        return self.buf.readlines()
+
+    def __iter__(self):
+        return iter(self.buf)
+
+
+class _MemPath(_Host):
+    """pathlib.Path over an in-memory file system (save_to_file / from_bench_file are folded without touching the disk)."""
+
+    FS: dict = {}
+
+    def __init__(self, path):
+        self.path = str(path.path if isinstance(path, _MemPath) else path)
+
+    @property
+    def parent(self):
+        return _MemPath(self.path.rsplit('/', 1)[0] if '/' in self.path else '.')
+
+    @property
+    def suffix(self):
+        return '.' + self.path.rsplit('.', 1)[1] if '.' in self.path.rsplit('/', 1)[-1] else ''
+
+    def exists(self):
+        return True
+
+    def mkdir(self, *a, **k):
+        return None
+
+    def write_text(self, text, *a, **k):
+        _MemPath.FS[self.path] = text
+        return len(text)
+
+    def read_text(self, *a, **k):
+        return _MemPath.FS[self.path]
+
+    def open(self, mode='r', *a, **k):
+        if 'r' in mode and self.path not in _MemPath.FS:
+            raise InterpRaise('FileNotFoundError')
+        return _MemFile(_MemPath.FS, self.path, mode)
+
+
+def fold_bench_round_trip(ck: Checker, R: str):
+    """format_circuit then from_bench_string folded on model circuits built from the repository's own Gate class (C11):
+    the circuit read back has the same inputs in order, the same outputs in order (duplicates kept), the same gates with the
+    same types and operands; use before definition is tolerated; save_to_file writes that text."""
+    repo = ck.repo
+    from .tables import Denotations as _Den
+    M = cm.Model(repo, _Den(repo), real_gates=True)
+    it = M.interp
+    it.real_super = True
+    it.allow_while = True
+    it.max_steps = 3_000_000
+    it.overrides['pathlib.Path'] = _MemPath
+    it.externals['pathlib.Path'] = _MemPath
+    mod = M.mod
+    C = it.global_value(mod, 'Circuit')
+    parse = it.getattr(mod, None, C, 'from_bench_string')
+    parse_file = it.getattr(mod, None, C, 'from_bench_file')
+
+    def snap(c):
+        d = c._d
+        return ({l: (g.gate_type.name, tuple(g.operands)) for l, g in d['_gates'].items()}, list(d['_inputs']), list(d['_outputs']))
+    fam = _small_family(ck.tier)
+    probs = []
+    n = 0
+    odd_labels = {'a': 'in.1', 'b': 'x[0]', 'g': 'output_like', 'x1': 'INPUTX', 'o': 'n-1'}
+    for spec, outs in fam:
+        for variant in ('plain', 'users-first', 'odd-labels', 'inputs-reordered', 'through-a-file'):
+            inner = [x for x in spec if x[1] != 'INPUT']
+            if variant == 'users-first' and len(inner) < 2:
+                continue
+            ren = (lambda l: odd_labels.get(l, l)) if variant == 'odd-labels' else (lambda l: l)
+            stored = [(ren(l), t, tuple(ren(o) for o in ops)) for l, t, ops in (spec if variant != 'users-first' else [x for x in spec if x[1] == 'INPUT'] + inner[::-1])]
+            routs = [ren(o) for o in outs]
+            n += 1
+            c = M.new_circuit(stored, routs)
+            if variant == 'inputs-reordered':
+                c._d['_inputs'].reverse()      # order_inputs / set_inputs after construction
+            desc = f'{[(l, t) + tuple(o) for l, t, o in stored if t != "INPUT"]} (storage order) inputs {list(c._d["_inputs"])} outputs {routs}' + (' saved to a file and loaded' if variant == 'through-a-file' else '')
+            if variant == 'through-a-file':
+                _MemPath.FS.clear()
+                _, err = M.call(c, 'save_to_file', 'dir/sub/c.bench')
+                if err:
+                    probs.append(f'save_to_file raises {err} on {desc}')
+                    continue
+                it.steps = 0
+                try:
+                    back = parse_file('dir/sub/c.bench')
+                except InterpRaise as e:
+                    probs.append(f'the saved file is not readable ({e.exc_name}) for {desc}: {_MemPath.FS.get("dir/sub/c.bench")!r}'[:400])
+                    continue
+            else:
+                text, err = M.call(c, 'format_circuit')
+                if err:
+                    probs.append(f'format_circuit raises {err} on {desc}')
+                    continue
+                it.steps = 0
+                try:
+                    back = parse(text)
+                except InterpRaise as e:
+                    probs.append(f'the printed text is not readable ({e.exc_name}) for {desc}: {text!r}'[:400])
+                    continue
+            s0, s1 = snap(c), snap(back)
+            if s0[1] != s1[1]:
+                probs.append(f'inputs read back as {s1[1]} instead of {s0[1]} for {desc}')
+            elif s0[2] != s1[2]:
+                probs.append(f'outputs read back as {s1[2]} instead of {s0[2]} for {desc}')
+            elif s0[0] != s1[0]:
+                diff = [l for l in s0[0] if s1[0].get(l) != s0[0][l]] or [l for l in s1[0] if l not in s0[0]]
+                probs.append(f'gate {diff[0]} read back as {s1[0].get(diff[0])} instead of {s0[0].get(diff[0])} for {desc}')
+            elif cm.invariant_problems(back):
+                probs.append(f'the circuit read back is not well formed ({cm.invariant_problems(back)[0]}) for {desc}')
+            if len(probs) > 3:
+                break
+    ck.check(not probs, R, mod, mod.func('Circuit.format_circuit'), f'format_circuit then from_bench_string folded over {n} model circuits (all gate types, n-ary gates, constants with operands, repeated and input outputs, '
+             'gates stored users-first, unusual labels): same inputs and outputs in order, same gates, well formed', '; '.join(probs[:2]), construct='format_circuit / from_bench_string round trip')
+    ck.assume('the bench round trip is folded over a bounded family of model circuits; save_to_file / from_bench_file are folded over an in-memory stand-in for pathlib.Path')
